@@ -16,7 +16,7 @@ static int stt_mode() {
     std::string_view text(line);
     try {
       stt_row<0>(text); stt_row<1>(text); stt_row<2>(text); stt_row<3>(text); stt_row<4>(text); stt_row<5>(text);
-      std::cout << "\n";
+      std::cout << "CI\037" << d::count_inits(text) << "\037CT\037" << d::count_terminates(text) << "\n";
     } catch (std::exception&) { std::cout << "THROW\n"; }
   }
   return 0;
